@@ -7,6 +7,7 @@
 package main
 
 import (
+	"hash/fnv"
 	"bytes"
 	"context"
 	"encoding/json"
@@ -26,6 +27,7 @@ import (
 	_ "github.com/influxdata/influxdb/v2/tsdb/engine"
 	"github.com/influxdata/influxdb/v2/tsdb/engine/tsm1"
 	_ "github.com/influxdata/influxdb/v2/tsdb/index"
+	"github.com/influxdata/influxdb/v2/tsdb/index/tsi1"
 	"github.com/influxdata/influxql"
 	"verif/harness/rt"
 )
@@ -129,6 +131,37 @@ func (w *world) series(i int) ([]byte, models.Tags) {
 		}
 	}
 	return []byte(w.conc[s.M]), models.NewTags(m)
+}
+
+func (w *world) settle() {
+	for _, id := range []uint64{1, 2} {
+		sh := w.st.Shard(id)
+		if sh == nil {
+			continue
+		}
+		ix, err := sh.Index()
+		if err != nil {
+			continue
+		}
+		idx, ok := ix.(*tsi1.Index)
+		if !ok {
+			continue
+		}
+		for n := 0; n < 200; n++ {
+			idx.Wait()
+			busy := false
+			for p := 0; p < int(idx.PartitionN); p++ {
+				part := idx.PartitionAt(p)
+				if part.CurrentCompactionN() > 0 || part.NeedsCompaction(true) {
+					busy = true
+				}
+			}
+			if !busy {
+				break
+			}
+			time.Sleep(5 * time.Millisecond)
+		}
+	}
 }
 
 func quoteIdent(s string) string {
@@ -493,6 +526,10 @@ func run(c *caseT, env *rt.Env) rt.Result {
 			}
 		case "delete":
 			sawDelete = true
+			// Engine.DeleteSeriesRangeWithPredicate waits for index compactions while the Store's delete still holds a series
+			// iterator on the file set being compacted (LogFile.Close waits for that reference): with a tiny index log size that
+			// deadlocks now and then. Not C42's subject (reported separately): let the index settle before deleting.
+			w.settle()
 			min, max := int64(0), int64(199)
 			if len(s.Rng) == 1 {
 				if s.Rng[0] == 1 {
@@ -594,6 +631,10 @@ func main() {
 		if err := json.Unmarshal(raw, &c); err != nil {
 			return rt.Infra("bad case: " + err.Error())
 		}
-		return run(&c, env)
+		r := run(&c, env)
+		h := fnv.New64a()
+		h.Write(raw)
+		r.Sig = fmt.Sprintf("%016x", h.Sum64())
+		return r
 	})
 }
